@@ -130,6 +130,59 @@ def vector_fit(records, lib, validator, on_fail):
     return n
 
 
+def vector_matmul(records, lib, validator, on_fail, limit=400):
+    """A @ B for 2-D curves built from pairs of scalar scenarios; judged pointwise by Trace.tla"""
+    r = VectorReplayer(lib, "fraction")
+    byA, n = {}, 0
+    for t in records:
+        a = t["act"]
+        if a["name"] != "CvArith" or a["op"] != "mul" or t.get("ovf"):
+            continue
+        A = t["pre"][a["obj"]]
+        byA.setdefault(json.dumps([A["U"], A["W"]]), {}).setdefault(json.dumps(A["P"]), {}) \
+            .setdefault(json.dumps([a["other"]["U"], a["other"]["W"]]), {})[json.dumps(a["other"]["P"])] = t
+    strip = lambda o: {"U": o["U"], "P": o["P"], "W": o["W"]}
+    for akey, byP in byA.items():
+        Ps = list(byP.values())
+        if len(Ps) < 2:
+            continue
+        for bkey in set(Ps[0]) & set(Ps[1]):
+            bs = list(Ps[0][bkey].values())
+            if len(bs) < 2 or n >= limit:
+                continue
+            t1 = bs[0]
+            A1, A2 = Ps[0][bkey][json.dumps(bs[0]["act"]["other"]["P"])]["pre"][t1["act"]["obj"]], \
+                list(Ps[1][bkey].values())[0]["pre"][t1["act"]["obj"]]
+            B1, B2 = bs[0]["act"]["other"], bs[1]["act"]["other"]
+            try:
+                A = r.build2(A1, A2)
+                B = r.build2(dict(B1, kind="cv"), dict(B2, kind="cv"))
+            except Exception as e:
+                on_fail(t1, [f"building 2-D operands raised {type(e).__name__}: {e}"])
+                continue
+            n += 1
+            cls, R, exc = "ok", None, None
+            try:
+                R = A @ B
+            except ValueError as e:
+                cls, exc = "ValueError", e
+            except Exception as e:
+                cls, exc = "Error", e
+            d, dv = None, []
+            if cls == "ok":
+                try:
+                    d = strip(Replayer.project(r, R))
+                    dv = r.observed_values("CvArith", strip(A1), strip(B1), d, R)
+                except Exception as e:
+                    on_fail(t1, [f"A @ B: result cannot be read back exactly: {type(e).__name__}: {e}"])
+                    continue
+                d = {"U": d["U"], "P": [x if core.fits32(x) else [0, 0] for x in d["P"]],
+                     "W": [x if core.fits32(x) else [0, 0] for x in d["W"]]}
+            validator.add({"name": "CvMatmul", "a2": strip(A2), "b2": strip(B2)}, c=strip(A1), b=strip(B1), d=d,
+                          cls=cls, tag=t1, dv=dv)
+    return n
+
+
 def vector_replay(records, lib, on_fail):
     """returns the number of paired calls executed"""
     r = VectorReplayer(lib, "fraction")
